@@ -337,12 +337,22 @@ func (r *replica) crashCommit(si, j int) bool {
 		hist = 1
 	}
 	rcpt := iLR - 1 - hist
-	if !ok || iLR < 1 || iLB != iLR+1 || rcpt < 0 {
+	if !ok || len(seq) < 2 {
 		r.fail(si, action, "error", false, "scout-sequence", fmt.Sprintf("unexpected durable-write sequence of OnCommit: %v", seq), nil, nil)
 		r.aborted = true
 		return false
 	}
 	at := map[int]int{1: rcpt, 2: rcpt + 1, 3: iLR, 4: iLB}[j]
+	if iLR < 1 || iLB != iLR+1 || rcpt < 0 {
+		// the writes are not labelled the way the specification names them (a conformance matter for C06's trace
+		// validation); the crash points are then taken by position from the end of the sequence: the application's own
+		// commit records are its last two durable writes
+		r.rep.Count("crash_points_by_position")
+		at = len(seq) - (5 - j)
+		if at < 0 {
+			at = 0
+		}
+	}
 	n := 0
 	verifhook.DurableFn = func(site string, key []byte) error {
 		if n == at {
